@@ -283,7 +283,7 @@ func TestC14(t *testing.T) {
 	depth := vk.Pick(run, 2, 3)
 	run.Set("state_depth", depth)
 	a := alphaOpts{MaxSlice: 3, Deletes: true, Restart: true, ReadAll: true}
-	dl := vk.NewDeadline(vk.Pick(run, 10*time.Minute, 120*time.Minute))
+	dl := vk.NewDeadline(vk.Pick(run, 10*time.Minute, 45*time.Minute))
 	states := 0
 	for _, parallel := range []bool{false, true} {
 		if parallel {
